@@ -627,6 +627,8 @@ type ConcCfg struct {
 	// (MaxIter+1)th time. The number of abandoned paths is reported through Cut.
 	MaxIter int
 	Cut     *int
+	// MaxLoop: with MaxIter == 0, how often a loop head may be re-entered before the exploration gives up (default 40).
+	MaxLoop int
 	// IterClosures: a call that is not explored inline and receives a function literal (e.g. record.Attrs(func…))
 	// is modelled as invoking that literal 0..MaxIter times in sequence (stopping early when it returns false).
 	IterClosures bool
@@ -749,7 +751,11 @@ func ConcPaths(fn *ssa.Function, cfg ConcCfg) (seqs []string, truncated bool) {
 		if loopHead && cfg.MaxIter == 0 {
 			// safety net: a loop whose body adds events never reaches a state seen before; give up on the path (and
 			// report the exploration as incomplete) instead of walking it for ever
-			if st.iters[to] > 40 {
+			lim := 40
+			if cfg.MaxLoop > 0 {
+				lim = cfg.MaxLoop
+			}
+			if st.iters[to] > lim {
 				truncated = true
 				return
 			}
@@ -1909,11 +1915,99 @@ func buildConstTables() {
 			}
 		})
 	}
+	// a table computed once by a function the initialiser calls (var t = func() (a [256]bool) { … }()): the function is
+	// explored with its counting loops unrolled; when it has a single path on which every element store has an evident
+	// index and value, those stores are the table
+	for _, fn := range inits {
+		AllInstrs(fn, func(in ssa.Instruction) {
+			st, ok := in.(*ssa.Store)
+			if !ok {
+				return
+			}
+			g, isG := st.Addr.(*ssa.Global)
+			call, isCall := st.Val.(*ssa.Call)
+			if !isG || !isCall || written[g] != 1 || constTables[g] != nil {
+				return
+			}
+			at, isArr := types.Unalias(deref(g.Type())).Underlying().(*types.Array)
+			if !isArr || intConst(0, at.Elem()) == nil {
+				return
+			}
+			var f *ssa.Function
+			switch v := call.Call.Value.(type) {
+			case *ssa.Function:
+				f = v
+			case *ssa.MakeClosure:
+				if len(v.Bindings) == 0 {
+					f, _ = v.Fn.(*ssa.Function)
+				}
+			}
+			if f == nil || len(f.Params) != 0 || len(f.Blocks) == 0 || len(call.Call.Args) != 0 {
+				return
+			}
+			if entries, ok := evalTableInit(f, at); ok {
+				constTables[g] = &constTable{entries: entries, zero: true}
+			}
+		})
+	}
 	for g := range constTables {
 		if written[g] >= 100 {
 			delete(constTables, g)
 		}
 	}
+}
+
+// evalTableInit: see buildConstTables.
+func evalTableInit(f *ssa.Function, at *types.Array) (map[int64]ssa.Value, bool) {
+	entries := map[int64]ssa.Value{}
+	okAll := true
+	var arr *ssa.Alloc
+	saved := constTables
+	seqs, trunc := ConcPaths(f, ConcCfg{
+		Unroll: true, MaxStates: 50000, MaxLoop: int(at.Len()) + 8,
+		Inline: func(*ssa.Function) bool { return false },
+		Event: func(in ssa.Instruction, st *ConcState) string {
+			switch x := in.(type) {
+			case *ssa.Store:
+				ia, ok := x.Addr.(*ssa.IndexAddr)
+				if !ok {
+					return ""
+				}
+				a, isA := ia.X.(*ssa.Alloc)
+				if !isA || !types.Identical(types.Unalias(deref(a.Type())).Underlying(), at) {
+					return ""
+				}
+				if arr == nil {
+					arr = a
+				}
+				k, ok1 := st.Int(ia.Index)
+				v, ok2 := st.Int(x.Val)
+				if arr != a || !ok1 || !ok2 || k < 0 || k >= at.Len() {
+					okAll = false
+					return ""
+				}
+				entries[k] = intConst(v, at.Elem())
+			case *ssa.Return:
+				// what is returned is that array
+				if len(x.Results) != 1 {
+					okAll = false
+					return "ret"
+				}
+				ld, isLd := x.Results[0].(*ssa.UnOp)
+				if !isLd || ld.Op != token.MUL || arr == nil || ld.X != ssa.Value(arr) {
+					okAll = false
+				}
+				return "ret"
+			case *ssa.Call:
+				if _, isB := x.Call.Value.(*ssa.Builtin); !isB {
+					okAll = false // anything but plain stores: not a table we can evaluate
+				}
+			}
+			return ""
+		},
+	})
+	constTables = saved
+	return entries, okAll && !trunc && len(seqs) == 1 && arr != nil
 }
 
 // constTableLookup: tbl is (a load of) a constant package-level table and key is evident: the entry, whether it is
